@@ -85,10 +85,15 @@ RESNAMES = {'()': 'unit', 'Entry': 'entry', '(stat64, Duration)': 'attr', 'Vec<u
             '(Entry, Option<Self::Handle>, OpenOptions, Option<u32>)': 'create'}
 
 
-def resfn(ret):
+NAMEKEYED = {'id_remap', 'id_remap_with_nodeid'}     # calls made IN ADDITION to the request's own operation keep their own result
+
+
+def resfn(ret, name=None):
     """One uninterpreted result per RETURN TYPE: `res_<type>()` names "what the filesystem returned" to the single call a
     request may make, whichever operation that was.  (Calling the wrong operation is a capability failure - C02 - and
     does not also make the reply encoding - C03 - fail.)"""
+    if name in NAMEKEYED:
+        return 'res_' + name
     m = re.match(r'^io::Result<(.*)>$', ret)
     inner = m.group(1) if m else ret
     return 'res_' + RESNAMES.get(inner, re.sub(r'[^A-Za-z0-9]+', '_', inner).strip('_').lower())
@@ -156,7 +161,7 @@ def gen_trait(root, notes, server=False):
         g = ('<%s>' % ', '.join(gens)) if gens else ''
         L.append('    spec fn allowed_%s(&self%s) -> bool;' % (name, ''.join(', ' + a for a in sargs)))
         ret = m['ret']
-        rf = resfn(ret) if ret else None
+        rf = resfn(ret, name) if ret else None
         if ret and rf not in seen_res:
             seen_res.add(rf)
             ret_spec = ret.replace("IoctlData<'_>", 'IoctlRes')
@@ -225,9 +230,9 @@ def gen_impl(root, struct, inode_ty, handle_ty, notes, generics=''):
         ret = m['ret']
         if ret:
             r2 = ret.replace('Self::Inode', inode_ty).replace('Self::Handle', handle_ty)
-            if resfn(ret) not in seen_res:
-                seen_res.add(resfn(ret))
-                L.append('    uninterp spec fn %s(&self) -> %s;' % (resfn(ret), r2.replace("IoctlData<'_>", 'IoctlRes')))
+            if resfn(ret, name) not in seen_res:
+                seen_res.add(resfn(ret, name))
+                L.append('    uninterp spec fn %s(&self) -> %s;' % (resfn(ret, name), r2.replace("IoctlData<'_>", 'IoctlRes')))
         if mut_ctx:
             L.append('    uninterp spec fn ctx_%s(&self) -> Context;' % name)
         sig = '    #[verifier::external_body] fn %s%s(&self%s)' % (name, g, ''.join(', ' + p for p in eparams))
